@@ -89,7 +89,7 @@ struct Scene {
     std::unique_ptr<CableSubsystem> cables; std::unique_ptr<CableTrackerSubsystem> tracker; std::unique_ptr<GeneralForceSubsystem> forces;
     MobilizedBody b1, b2;
     CableSpan span; std::unique_ptr<CablePath> path; CableSpring spring;
-    std::vector<Surf> surf; std::vector<MobilizedBody> obsBody; std::vector<Transform> X_BS;
+    std::vector<Surf> surf; std::vector<MobilizedBody> obsBody; std::vector<Transform> X_BS; std::vector<Vec3> hintDirS;
     std::vector<MobilizedBody> viaBody; std::vector<Vec3> viaStation;
     std::vector<Element> order;
     MobilizedBody originBody, termBody; Vec3 originStation, termStation;
@@ -160,7 +160,7 @@ static std::unique_ptr<Scene> buildScene(const SceneSpec& sp, Which which) {
         // contact hints on the top of the obstacle, in the surface frame
         const Vec3 topS = ~Xw.R() * Vec3(0, 1, 0), fwdS = ~Xw.R() * Vec3(1, 0, 0);
         Vec3 hint = sf.kind == 3 ? ~Xw * Vec3(kSlotX[slot], V.topY[slot] + 0.02, V.zoff[slot]) : topS * (sf.size * 1.05);
-        S->surf.push_back(sf); S->obsBody.push_back(bodyOf(b)); S->X_BS.push_back(X_BS);
+        S->surf.push_back(sf); S->obsBody.push_back(bodyOf(b)); S->X_BS.push_back(X_BS); S->hintDirS.push_back(topS);
         if (which == SPAN) S->span.addObstacle(bodyOf(b).getMobilizedBodyIndex(), X_BS, sf.make(), hint);
         if (which == PATH) {
             CableObstacle::Surface so(*S->path, bodyOf(b), X_BS, *sf.make());
@@ -292,6 +292,38 @@ int main(int argc, char** argv) {
             run.count("span:exception/" + cls);
             if (run.verbose) fprintf(stderr, "%s\n  CableSpan threw: %s\n", desc.c_str(), base0.what.c_str());
         } else run.count(std::string("span:") + (spanConv ? "converged" : "not-converged") + "/alg=" + (sp.algorithm ? "Scholz2015" : "MinimumLength") + "/tol=" + (sp.tol ? "default" : "tight"));
+        // ---- ground truth that does not depend on the solver's own convergence report: when the straight polyline origin - via - termination
+        // passes every obstacle with a margin ON THE SIDE OF ITS CONTACT HINT (a line passing on the far side leaves the cable hooked over the
+        // obstacle, which is a legitimate locally shortest path), the straight path is the locally shortest one on that side: the solver must
+        // lift every obstacle off, converge, and report the polyline length.
+        if (!base0.threw && nOb > 0) {
+            std::vector<Vec3> poly; poly.push_back(originG(s)); for (int v = 0; v < nVia; ++v) poly.push_back(viaG(s, v)); poly.push_back(termG(s));
+            bool clear = true; double plen = 0;
+            for (size_t i = 1; i < poly.size(); ++i) {
+                plen += (poly[i] - poly[i - 1]).norm();
+            }
+            // each obstacle against the polyline piece that brackets it in path order; the closest approach must be interior to that piece
+            // (an obstacle that has swung past its neighbouring via / attachment point is not "between" them: unspecified)
+            { size_t piece = 1;
+              for (auto& el : sc.order) {
+                if (el.via) { ++piece; continue; }
+                if (!clear) break;
+                const int k = el.index; const Transform X = X_GS(s, k); double best = -Infinity; Vec3 bestS(NaN); int bestT = -1;
+                for (int t = 0; t <= 50; ++t) { const Vec3 xS = ~X * (poly[piece - 1] + (poly[piece] - poly[piece - 1]) * (t / 50.0)); const double f = sc.surf[k].inside(xS); if (f > best) { best = f; bestS = xS; bestT = t; } }
+                clear = best < -0.02 * sc.surf[k].size && bestT >= 10 && bestT <= 40 && dot(sc.surf[k].normal(bestS), sc.hintDirS[k]) > 0.7;
+              } }
+            if (clear) {
+                run.count("span:polyline-clears-every-obstacle");
+                const std::string an = sp.algorithm ? "Scholz2015" : "MinimumLength";
+                if (!spanConv) run.count("span:clear-line/not-converged/alg=" + an);     // no convergence is promised: counted; see the vacuity guard after the enumeration
+                else {
+                    run.count("span:clear-line/converged/alg=" + an);
+                    const bool lifted = std::count(base0.contact.begin(), base0.contact.end(), (char)1) == 0;
+                    if (lifted) run.residual("span-clear-straight-line-length", std::abs(base0.L - plen) / plen, 1e-12, where);
+                    else run.count("span:clear-line/converged-in-contact/alg=" + an);       // judged by the cusp / penetration / force oracles below
+                }
+            }
+        }
         double spanL = NaN; std::vector<char> spanContact; std::vector<Vec3> spanP, spanQ;
         if (spanConv) { [&] {
             const double eps = base0.smooth, L = base0.L; spanL = L; spanContact = base0.contact;
@@ -569,5 +601,14 @@ int main(int argc, char** argv) {
         }
     });
     restoreStdout();
+    // vacuity guard: the oracles above only speak where the solver converges.  On the configurations whose solution is trivially the straight
+    // polyline (every obstacle is passed on its hint side with a margin) the unchanged solver converges in >= 96 % of the cases (MinimumLength;
+    // all value sets); if it stops doing so the touchdown / lift-off logic is broken and the check would be silently vacuous.
+    if (!run.replaying()) {
+        for (const char* an : {"MinimumLength", "Scholz2015"}) {
+            const double c = (double)run.acc.counters[std::string("span:clear-line/converged/alg=") + an], n = (double)run.acc.counters[std::string("span:clear-line/not-converged/alg=") + an];
+            if (c + n > 0) run.residual(std::string("vacuity/span-clear-line-configurations-not-solved/alg=") + an, n / (c + n), 0.3, [&] { return std::string(an) + ": " + std::to_string((long)n) + " of " + std::to_string((long)(c + n)) + " trivially straight configurations did not converge"; });
+        }
+    }
     return run.finish();
 }
